@@ -1,6 +1,6 @@
-CONSTANTS Menu = "sanity"
+CONSTANTS Menu = "quick"
  Emit = FALSE
- Repaired = {"blPrefix"}
+ Repaired = {}
 SPECIFICATION Spec
 INVARIANTS CaseOK CodeModelConforms
 CHECK_DEADLOCK FALSE
